@@ -71,6 +71,12 @@ ASSUMPTIONS = [
     'wildcards * and ** among the parent segments; matches are deleted in order with Python semantics (an earlier '
     'deletion is visible to a later match); a wildcard case in which some match fails through a path-segment handler '
     'in a way that is not "missing" is not judged; sets are only enumerated when their order is determined',
+    'realisation variants: every logging-mode case is replayed once more in one of (rotating) falsy containers / '
+    'objects with pass-through __getitem__ / __iter__ / __len__ overrides, hostile __eq__ (always True; raising), '
+    'reordered OrderedDicts (cases without attribute steps: an OrderedDict accepts attributes), namedtuples, classes '
+    'made with type() after others were collected, and the spec object evaluated twice with the first target and '
+    'everything made for it mutated in between; a slotted object (flag "slots") only on wildcard-free paths; numeric '
+    'keys that are equal across types (1 / 1.0 / True) are not modelled (abstract keys are compared structurally)',
     'TLC, the Json community module and the codec are trusted',
 ]
 
